@@ -134,6 +134,83 @@ theorem C09_inst_day (ps : List Period) (d0 d1 : Int) :
     unfold instDay
     rw [if_neg (not_lt.mpr h)]
 
+/-- a reading interval of the feed lies inside the meter day and has the feed's sampling length -/
+def InsideL (L d0 d1 : Int) (p : Period) : Prop := d0 ≤ p.t0 ∧ p.t1 ≤ d1 ∧ p.t1 - p.t0 = L
+
+instance (L d0 d1 : Int) (p : Period) : Decidable (InsideL L d0 d1 p) := by unfold InsideL; infer_instance
+
+/-- the present readings of the day on an aligned grid -/
+def presentInside (L d0 d1 : Int) (ps : List Period) : List Rat :=
+  (ps.filter fun p => decide (InsideL L d0 d1 p)).filterMap (·.v)
+
+theorem presentInside_cons (L d0 d1 : Int) (p : Period) (ps : List Period) :
+    presentInside L d0 d1 (p :: ps)
+      = (if InsideL L d0 d1 p then (match p.v with | some v => [v] | none => []) else []) ++ presentInside L d0 d1 ps := by
+  unfold presentInside
+  by_cases h : InsideL L d0 d1 p
+  · cases hv : p.v <;> simp [List.filter_cons, h, hv, List.filterMap_cons]
+  · simp [List.filter_cons, h]
+
+theorem covered_aligned (L : Int) (hL : 0 < L) (ps : List Period) (d0 d1 : Int)
+    (h : ∀ p ∈ ps, InsideL L d0 d1 p ∨ (p.t1 ≤ d0 ∨ d1 ≤ p.t0)) :
+    dayCovered ps d0 d1 = L * ((presentInside L d0 d1 ps).length : Int) := by
+  unfold dayCovered
+  induction ps with
+  | nil => simp [presentInside]
+  | cons p ps ih =>
+    have ih' := ih (fun q hq => h q (List.mem_cons_of_mem _ hq))
+    rw [List.map_cons, List.sum_cons, ih', presentInside_cons]
+    rcases h p (List.mem_cons_self ..) with hin | hout
+    · have hov : overlap d0 d1 p.t0 p.t1 = L := by obtain ⟨a, b, c⟩ := hin; unfold overlap; omega
+      rw [if_pos hin]
+      cases hv : p.v with
+      | none => simp [covered, hv]
+      | some v => simp [covered, hv, hov]; ring
+    · have hov : overlap d0 d1 p.t0 p.t1 = 0 := by unfold overlap; omega
+      have hnot : ¬ InsideL L d0 d1 p := by unfold InsideL; omega
+      rw [if_neg hnot]
+      cases hv : p.v <;> simp [covered, hv, hov]
+
+theorem weighted_aligned (L : Int) (hL : 0 < L) (ps : List Period) (d0 d1 : Int)
+    (h : ∀ p ∈ ps, InsideL L d0 d1 p ∨ (p.t1 ≤ d0 ∨ d1 ≤ p.t0)) :
+    (ps.map (weighted d0 d1)).sum = (L : Rat) * (presentInside L d0 d1 ps).sum := by
+  induction ps with
+  | nil => simp [presentInside]
+  | cons p ps ih =>
+    have ih' := ih (fun q hq => h q (List.mem_cons_of_mem _ hq))
+    rw [List.map_cons, List.sum_cons, ih', presentInside_cons]
+    rcases h p (List.mem_cons_self ..) with hin | hout
+    · have hov : overlap d0 d1 p.t0 p.t1 = L := by obtain ⟨a, b, c⟩ := hin; unfold overlap; omega
+      rw [if_pos hin]
+      cases hv : p.v with
+      | none => simp [weighted, hv]
+      | some v => simp [weighted, hv, hov]; ring
+    · have hov : overlap d0 d1 p.t0 p.t1 = 0 := by unfold overlap; omega
+      have hnot : ¬ InsideL L d0 d1 p := by unfold InsideL; omega
+      rw [if_neg hnot]
+      cases hv : p.v <;> simp [weighted, hv, hov]
+
+/-- **sub-hourly feeds on a grid aligned with the meter day** (every reading interval has the sampling
+length `L` and lies inside the day or misses it — the property's "offset a whole number of sampling
+intervals"): the time-weighted mean the code computes is the plain mean of the present readings of the day -/
+theorem C09_inst_mean_is_plain_mean (L : Int) (hL : 0 < L) (ps : List Period) (d0 d1 : Int)
+    (h : ∀ p ∈ ps, InsideL L d0 d1 p ∨ (p.t1 ≤ d0 ∨ d1 ≤ p.t0)) (hne : presentInside L d0 d1 ps ≠ []) :
+    instMean ps d0 d1 = some ((presentInside L d0 d1 ps).sum / ((presentInside L d0 d1 ps).length : Rat)) := by
+  have h1 := weighted_aligned L hL ps d0 d1 h
+  have h2 := covered_aligned L hL ps d0 d1 h
+  have hlen : 0 < (presentInside L d0 d1 ps).length := List.length_pos_iff.mpr hne
+  have hcov : dayCovered ps d0 d1 ≠ 0 := by
+    rw [h2]
+    have : (0 : Int) < ((presentInside L d0 d1 ps).length : Int) := by exact_mod_cast hlen
+    exact (mul_pos hL this).ne'
+  unfold instMean
+  rw [if_neg hcov, h1, h2]
+  congr 1
+  have hLr : (L : Rat) ≠ 0 := by exact_mod_cast hL.ne'
+  have hnr : ((presentInside L d0 d1 ps).length : Rat) ≠ 0 := by exact_mod_cast hlen.ne'
+  push_cast
+  field_simp
+
 /-- the pinned code's result is the mean divided by the coverage: strictly larger than the mean for a
 positive mean and incomplete coverage (the witness of finding C09-F1) -/
 theorem C09_inst_day_divided (ps : List Period) (d0 d1 : Int) (m : Rat) (hm : instMean ps d0 d1 = some m)
